@@ -853,3 +853,38 @@ T("C04", "twin-sympy-dense-vector-msb-index", (UNI, """    basis = [sympy.Matrix
     return vector"""))
 T("C04", "twin-map-conversion", (UTL, "    measurements = [bitstring_to_tuple(bitstring) for bitstring in bitstrings]", "    measurements = list(map(bitstring_to_tuple, bitstrings))"))
 T("C04", "twin-index-draw-with-conversion", (WF, "        string_samples = rng.choice(a=outcome_strings, size=n_samples, p=probabilities)\n        samples = convert_bitstrings_to_tuples(string_samples)", "        indices = rng.choice(len(outcome_strings), size=n_samples, p=probabilities)\n        samples = [bitstring_to_tuple(outcome_strings[index]) for index in indices]"))
+
+# ----------------------------------------------------------------------------- C09
+OPUT = "operators/_openfermion_utils/operator_utils.py"
+
+B("C09", "reverse-off-by-one", (OUT, "            new_qubit_num = n_qubits - 1 - qubit_num", "            new_qubit_num = n_qubits - qubit_num"), rule="C09-D1")
+B("C09", "reverse-drops-width-guard", (OUT, "    if n_qubits < qubit_operator.n_qubits:\n        raise ValueError(\"Invalid number of qubits specified.\")\n\n    for term in qubit_operator.terms:", "    for term in qubit_operator.terms:"), rule="C09-D1")
+B("C09", "reverse-unit-coefficient", (OUT, "        reversed_op += PauliTerm(new_term, term.coefficient)", "        reversed_op += PauliTerm(new_term)"), rule="C09-D1")
+B("C09", "reverse-uses-operator-width", (OUT, "            new_qubit_num = n_qubits - 1 - qubit_num", "            new_qubit_num = qubit_operator.n_qubits - 1 - qubit_num"), rule="C09-D1")
+B("C09", "conjugate-dropped-on-sum-branch", (OPUT, "            conjugate_operator += term.copy(term.coefficient.conjugate())", "            conjugate_operator += term.copy(term.coefficient)"), rule="C09-D2")
+B("C09", "conjugate-dropped-on-term-branch", (OPUT, "        conjugate_operator = operator.copy(operator.coefficient.conjugate())", "        conjugate_operator = operator.copy()"), rule="C09-D2")
+B("C09", "ndarray-bare-transpose", (OPUT, "        conjugate_operator = operator.T.conj()", "        conjugate_operator = operator.T"), rule="C09-D2")
+B("C09", "sparse-bare-conjugate", (OPUT, "        conjugate_operator = operator.getH()", "        conjugate_operator = operator.conj()"), rule="C09-D2")
+B("C09", "is-hermitian-compares-with-itself", (OPUT, "        return operator == hermitian_conjugated(operator)", "        return operator == operator"), rule="C09-D2")
+B("C09", "sparse-constant-disjunct-dropped", (SPT, "        if tensor_factor < n_qubits or not qubit_term:", "        if tensor_factor < n_qubits:"), rule="C09-D3")
+B("C09", "sparse-gap-size-off-by-one", (SPT, "                identity_qubits = qubit_num - tensor_factor\n", "                identity_qubits = qubit_num - tensor_factor + 1\n"), rule="C09-D3")
+B("C09", "sparse-cursor-not-advanced", (SPT, "            tensor_factor = qubit_num + 1", "            tensor_factor = qubit_num"), rule="C09-D3")
+B("C09", "sparse-trailing-size", (SPT, "            identity_qubits = n_qubits - tensor_factor\n", "            identity_qubits = n_qubits - tensor_factor - 1\n"), rule="C09-D3")
+B("C09", "sparse-width-guard-removed", (SPT, "    if n_qubits < operator.n_qubits:\n        raise ValueError(\"Invalid number of qubits specified.\")\n", ""), rule="C09-D3")
+B("C09", "sparse-coefficient-twice", (SPT, "        values_list.append(sparse_matrix.tocoo(copy=False).data)", "        values_list.append(coefficient * sparse_matrix.tocoo(copy=False).data)"), rule="C09-D3")
+B("C09", "sparse-inplace-scaling-of-shared-factor", (SPT, "        sparse_operators = [coefficient]", "        sparse_operators = []"), (SPT, "        values_list.append(sparse_matrix.tocoo(copy=False).data)", "        values = sparse_matrix.tocoo(copy=False).data\n        values *= coefficient\n        values_list.append(values)"), rule="C09-D3")
+B("C09", "sparse-y-matrix-transposed", (SPT, "pauli_y_csc = scipy.sparse.csc_matrix([[0.0, -1.0j], [1.0j, 0.0]], dtype=complex)", "pauli_y_csc = scipy.sparse.csc_matrix([[0.0, 1.0j], [-1.0j, 0.0]], dtype=complex)"), rule="C09-D3")
+B("C09", "sparse-empty-sum-wrong-dimension", (SPT, "        return scipy.sparse.csc_matrix((n_hilbert, n_hilbert), dtype=complex)", "        return scipy.sparse.csc_matrix((n_qubits, n_qubits), dtype=complex)"), rule="C09-D3")
+B("C09", "expectation-ignores-state-width", (OUT, "    sparse_op = get_sparse_operator(qubit_op, n_qubits=n_qubits)", "    sparse_op = get_sparse_operator(qubit_op)"), rule="C09-D4")
+B("C09", "expectation-unconjugated-bra", (SPT, "            expectation = numpy.dot(numpy.conjugate(state), operator * state)", "            expectation = numpy.dot(state, operator * state)"), rule="C09-D4")
+B("C09", "expansion-y-phase-sign", (OUT, "                    if j_str[index] == 0:\n                        val_nz = val_nz * (1j)", "                    if j_str[index] == 0:\n                        val_nz = val_nz * (-1j)"), rule="C09-D5")
+B("C09", "expansion-z-on-zero-bit", (OUT, "                if label_vec[index] == 3:\n                    if j_str[index] == 1:", "                if label_vec[index] == 3:\n                    if j_str[index] == 0:"), rule="C09-D5")
+B("C09", "expansion-flip-only-x", (OUT, "                if label_vec[index] in [1, 2]:  # flip if X or Y", "                if label_vec[index] in [1]:  # flip if X or Y"), rule="C09-D5")
+B("C09", "expansion-transposed-entry", (OUT, "            tr = tr + operator[j][f(j)] * nz(j)", "            tr = tr + operator[f(j)][j] * nz(j)"), rule="C09-D5")
+B("C09", "expansion-normalisation", (OUT, "        return tr / 2**n", "        return tr / 2 ** (n - 1)"), rule="C09-D5")
+B("C09", "expansion-labels-swapped", (OUT, '            elif elem == 2:\n                pauli_symbol = "*Y" + str(ind)\n            elif elem == 3:\n                pauli_symbol = "*Z" + str(ind)', '            elif elem == 2:\n                pauli_symbol = "*Z" + str(ind)\n            elif elem == 3:\n                pauli_symbol = "*Y" + str(ind)'), rule="C09-D5")
+B("C09", "bin2dec-lsb-first", (UTL, "        dec = dec + coeff * x[len(x) - 1 - i]", "        dec = dec + coeff * x[i]"), rule="C09-D5")
+T("C09", "twin-ndarray-conj-T", (OPUT, "        conjugate_operator = operator.T.conj()", "        conjugate_operator = operator.conj().T"))
+T("C09", "twin-reverse-index-reassociated", (OUT, "            new_qubit_num = n_qubits - 1 - qubit_num", "            new_qubit_num = (n_qubits - qubit_num) - 1"))
+T("C09", "twin-scale-values-on-a-copy", (SPT, "        sparse_operators = [coefficient]", "        sparse_operators = []"), (SPT, "        values_list.append(sparse_matrix.tocoo(copy=False).data)", "        values_list.append(coefficient * sparse_matrix.tocoo(copy=False).data)"))
+T("C09", "twin-trailing-test-mirrored", (SPT, "        if tensor_factor < n_qubits or not qubit_term:", "        if not qubit_term or n_qubits > tensor_factor:"))
